@@ -85,7 +85,7 @@ contract(E + "Exchange.create_order", props=P + ["C08"], types={"order_request":
                    "content(self._loan_mgr._loans._items)", "content(self._loan_mgr._loans._open_items)", "self._loan_mgr._loans.pos",
                    "content(self._loan_mgr._collateral_by_loan)",
                    "content(self._order_mgr._orders._items)", "content(self._order_mgr._orders._open_items)", "self._order_mgr._orders.pos",
-                   "content(self._order_mgr._holds_by_order)", "content(self._order_mgr._order_updates._obj._queue)"])
+                   "content(self._order_mgr._holds_by_order)", "content(self._order_mgr._order_updates._obj._queue)", "self._order_mgr._order_updates._obj.pending"])
 
 contract(E + "Exchange.cancel_order", props=P, types={"order_id": "Id"}, returns="CanceledOrder",
          requires=EX_REQ + [("clock", "clock_ok(self._loan_mgr) and forall(lambda k=Id: implies(k in self._loan_mgr._loans._items, "
@@ -99,7 +99,7 @@ contract(E + "Exchange.cancel_order", props=P, types={"order_id": "Id"}, returns
          modifies=["self._balances.balances", "self._balances.holds", "self._balances.borrowed",
                    "content(self._order_mgr._holds_by_order)", "content(self._order_mgr._holds_by_order[order_id])",
                    "self._order_mgr._orders._items[order_id]._state", "content(self._order_mgr._orders._items[order_id]._loan_ids)",
-                   "content(self._loan_mgr._collateral_by_loan)", "content(self._order_mgr._order_updates._obj._queue)", "GHOST.ledger"])
+                   "content(self._loan_mgr._collateral_by_loan)", "content(self._order_mgr._order_updates._obj._queue)", "self._order_mgr._order_updates._obj.pending", "GHOST.ledger"])
 
 LM_EX_REQ = [("wired", "ex_wired(self)"), ("lm", "lm_inv(self._loan_mgr)")]
 contract(E + "Exchange.create_loan", props=["C01", "C02", "C07", "C10"], types={"amount": "Real"}, returns="LoanInfo",
@@ -132,7 +132,9 @@ contract(E + "Exchange._on_bar_event", props=["C03", "C01", "C05"], types={"even
          requires=EX_REQ + _om([("bar", "bar_wf(event.bar)"),
                                 ("clock", "clock_ok(om_lm(self)) and now_of(om_lm(self)) == event.when "
                                           "and forall(lambda k=Id: implies(k in om_lm(self)._loans._items, now_of(om_lm(self)) >= om_lm(self)._loans._items[k]._created_at))"),
-                                ("strategies", "forall(lambda p=Pair: implies(p in self._liquidity_strategies, liq_cfg(self._liquidity_strategies[p])))")]),
+                                ("strategies", "forall(lambda p=Pair: implies(p in self._liquidity_strategies, liq_cfg(self._liquidity_strategies[p])))")])
+                  + [("sources_distinct", "forall(lambda p=Pair: implies(p in self._bar_event_source, not same_object(self._bar_event_source[p], self._order_mgr._order_updates._obj) "
+                                          "and forall(lambda q=Pair: implies((q in self._bar_event_source) and q != p, not same_object(self._bar_event_source[p], self._bar_event_source[q])))))")],
          ensures=[("matched", "same_object(self._order_mgr.last_bar, event)"),
                   ("republished", "implies(event.bar.pair in self._bar_event_source, event in self._bar_event_source[event.bar.pair].pending)"),
                   ("only_that_pair", "forall(lambda p=Pair: implies((p in self._bar_event_source) and p != event.bar.pair, "
@@ -140,5 +142,7 @@ contract(E + "Exchange._on_bar_event", props=["C03", "C01", "C05"], types={"even
          site_pre={"push#0": [("matched_before_republish", "same_object(self._order_mgr.last_bar, event)")]},
          may_suspend=False, raises={"Error": [], "AssertionError": []},
          modifies=[m.replace("self.", "self._order_mgr.").replace("self._order_mgr._order_mgr", "self._order_mgr") if m.startswith("self.") or "(self." in m else m
-                   for m in []] + ["every(Order)", "every(LiquidityStrategy)", "every(ValueMap)", "every(FifoQueueEventSource)", "every(AccountBalances)",
+                   for m in []] + ["content(self._order_mgr._order_updates._obj._queue)", "self._order_mgr._order_updates._obj.pending",
+                                   "content(self._bar_event_source[event.bar.pair]._queue)", "self._bar_event_source[event.bar.pair].pending",
+                                   "every(Order)", "every(LiquidityStrategy)", "every(ValueMap)", "every(FifoQueueEventSource)", "every(AccountBalances)",
                                    "every(OrderManager)", "every(OrderContainer)", "every(Prices)", "every(Loan)", "every(LoanManager)", "every(LoanContainer)", "GHOST.ledger"])
